@@ -225,6 +225,115 @@ def check_meta(case, ctx):
     require(t_m.id() == txser.txid(m).hex(), "meta/txid_after_change")
 
 
+# ------------------------------------------------------------ object history
+
+HIST_EDITS = ["version", "locktime", "sequence", "prev_index", "amount", "out_script", "script_sig",
+              "add_output", "drop_output", "witness_set", "witness_inplace", "segwit_flag"]
+HIST_QUERIES = ["id", "serialize", "serialize_legacy", "hash", "clone", "reparse"]
+
+
+def objhist_strategy(tier):
+    op = st.one_of(
+        st.tuples(st.just("q"), st.sampled_from(HIST_QUERIES), st.integers(0, 7), st.integers(0, 2**32 - 1)),
+        st.tuples(st.just("e"), st.sampled_from(HIST_EDITS), st.integers(0, 7), st.integers(0, 2**32 - 1)),
+    )
+    return st.fixed_dictionaries({
+        "tx": txgen.transactions(allow_big_counts=False),
+        "ops": st.lists(op, min_size=3, max_size=10),
+        "tok": txgen.token(),
+        "wit": txgen.witness_stack().filter(lambda w: len(w) > 0),
+    })
+
+
+def check_objhist(case, ctx):
+    """ONE Tx object: every query must reflect the current fields, whatever was asked or edited before"""
+    tx = norm(case["tx"])
+    t = build_api(tx)
+    queried = edited_after = requery = False
+    for kind, what, i, v in case["ops"]:
+        if kind == "e":
+            if queried:
+                edited_after = True
+            ctx.label("edit:" + what)
+            ii = i % len(tx["ins"])
+            if what == "version":
+                tx["version"] = v
+                t.version = v
+            elif what == "locktime":
+                tx["locktime"] = v
+                from buidl.timelock import Locktime
+                t.locktime = Locktime(v)
+            elif what == "sequence":
+                from buidl.timelock import Sequence
+                tx["ins"][ii]["sequence"] = v
+                t.tx_ins[ii].sequence = Sequence(v)
+            elif what == "prev_index":
+                tx["ins"][ii]["prev_index"] = v
+                t.tx_ins[ii].prev_index = v
+            elif what == "script_sig":
+                tx["ins"][ii]["script"] = list(tx["ins"][ii]["script"]) + toks([case["tok"]])
+                t.tx_ins[ii].script_sig = Script(list(tx["ins"][ii]["script"]))
+            elif what in ("amount", "out_script"):
+                if not tx["outs"]:
+                    continue
+                oi = i % len(tx["outs"])
+                if what == "amount":
+                    tx["outs"][oi]["amount"] = v
+                    t.tx_outs[oi].amount = v
+                else:
+                    tx["outs"][oi]["script"] = list(tx["outs"][oi]["script"]) + toks([case["tok"]])
+                    t.tx_outs[oi].script_pubkey = Script(list(tx["outs"][oi]["script"]))
+            elif what == "add_output":
+                if len(tx["outs"]) < 8:
+                    tx["outs"].append({"amount": v, "script": toks([case["tok"]])})
+                    t.tx_outs.append(TxOut(v, Script(toks([case["tok"]]))))
+            elif what == "drop_output":
+                if tx["outs"]:
+                    del tx["outs"][-1]
+                    del t.tx_outs[-1]
+            elif what == "witness_set":
+                tx["ins"][ii]["witness"] = [bytes(x) for x in case["wit"]]
+                t.tx_ins[ii].witness = Witness([bytes(x) for x in case["wit"]])
+                tx["segwit"] = True
+                t.segwit = True
+            elif what == "witness_inplace":
+                if tx["segwit"]:
+                    tx["ins"][ii]["witness"].insert(0, v.to_bytes(4, "big"))
+                    t.tx_ins[ii].witness.items.insert(0, v.to_bytes(4, "big"))
+            elif what == "segwit_flag":
+                if tx["segwit"]:
+                    tx["segwit"] = False
+                    t.segwit = False
+                    for n, ti in enumerate(t.tx_ins):
+                        ti.witness = Witness()
+                        tx["ins"][n]["witness"] = []
+            continue
+        if tx["segwit"] and all(len(x["witness"]) == 0 for x in tx["ins"]):
+            continue  # non-canonical segwit encoding (all witnesses empty): not asserted
+        if queried and edited_after:
+            requery = True
+        queried = True
+        want_id = txser.txid(tx)
+        tag = "_after_edit" if edited_after else ""
+        if what == "id":
+            require(t.id() == want_id.hex(), "objhist/stale_or_wrong_id" + tag)
+        elif what == "hash":
+            require(t.hash() == want_id, "objhist/stale_or_wrong_hash" + tag)
+        elif what == "serialize":
+            require(t.serialize() == txser.serialize(tx), "objhist/stale_or_wrong_serialisation" + tag)
+        elif what == "serialize_legacy":
+            require(t.serialize_legacy() == txser.serialize(tx, witness=False),
+                    "objhist/stale_or_wrong_legacy_serialisation" + tag)
+        elif what == "clone":
+            c = t.clone()
+            require(c.serialize() == txser.serialize(tx) and c.id() == want_id.hex(), "objhist/clone_differs" + tag)
+        elif what == "reparse":
+            back = Tx.parse(BytesIO(t.serialize()))
+            compare_fields(back, tx, "objhist/reparse" + tag)
+    ctx.nontrivial(requery)
+    ctx.label("query_edit_query" if requery else "plain")
+
+
 # ---------------------------------------------------------------- fetcher
 
 RESP = ["honest", "honest_ws", "other_tx", "trailing_req_canonical", "trailing_req_rawhash",
@@ -393,6 +502,10 @@ SUBS = [
     Sub("txid_metamorphic", check_meta, strategy=meta_strategy,
         budget={"quick": 6000, "thorough": 200000},
         required=["field:" + f for f in NONWIT_FIELDS] + ["witness_change"]),
+    Sub("object_history", check_objhist, strategy=objhist_strategy, stateful=True,
+        budget={"quick": 8000, "thorough": 200000},
+        required=["edit:" + e for e in HIST_EDITS] + ["query_edit_query"],
+        nontrivial_rule="history in which the same Tx object is queried, edited and queried again"),
     Sub("fetcher_integrity", check_fetch, strategy=fetch_strategy,
         budget={"quick": 8000, "thorough": 200000},
         required=["resp:" + r for r in RESP] + ["returned", "raised"],
